@@ -1,8 +1,15 @@
 ---- MODULE ScopeV1MC ----
-EXTENDS ScopeV1, Json, IOUtils
+EXTENDS ScopeV1, Json, IOUtils, TLCExt
 T == {1, 2, 3}
 W == 1..4
 J == {1, 2}
 ScnSeq == JsonDeserialize(IOEnv.SCENARIOS)
 Scn == {ScnSeq[i] : i \in 1..Len(ScnSeq)}
+EdgeLog ==
+  LET rec == [s |-> <<TLCFP(vars), TLCFP(<<vars, 1>>)>>, t |-> <<TLCFP(vars'), TLCFP(<<vars', 1>>)>>,
+              th |-> lastT', pc |-> lastPc', scn |-> scn.id, done |-> AllEnd',
+              obs |-> [adm |-> adm', jst |-> jst', bad |-> bad']]
+  IN (lastT' # 0 /\ ~(AllEnd /\ AllEnd')) =>
+     Serialize(ToJson(rec) \o "\n", IOEnv.EDGES,
+        [format |-> "TXT", charset |-> "UTF-8", openOptions |-> <<"WRITE", "CREATE", "APPEND">>]).exitValue = 0
 ====
